@@ -29,6 +29,17 @@ def stability(units, seed, files=None):
     return out
 
 
+def assumption_audit():
+    tgt = os.path.join(HERE, ".work", "replay-target")
+    env = dict(os.environ, CARGO_TARGET_DIR=tgt, CARGO_NET_OFFLINE="true")
+    b = subprocess.run(["cargo", "build", "--offline", "--release", "-q", "--bin", "audit_std_specs"], cwd=os.path.join(HERE, "replay"), env=env, capture_output=True, text=True)
+    if b.returncode != 0:
+        return dict(ok=False, output="audit program does not build: " + b.stderr[-400:])
+    r = subprocess.run([os.path.join(tgt, "release", "audit_std_specs")], capture_output=True, text=True, timeout=600)
+    return dict(ok=r.returncode == 0 and r.stdout.startswith("AUDIT-OK"), output=r.stdout.strip()[:800],
+                what="assumed std contracts of prelude/split.rs, trim.rs, str.rs compared with the installed std on every string of length <= 5 over 13 characters (a test of assumptions, not a proof)")
+
+
 def _run_mutant(u, k, f, old, new):
     tmp = tempfile.mkdtemp(prefix="verif-mut-")
     try:
